@@ -114,3 +114,17 @@ package mqtt
 //@   ensures[C08] shrinks: len(*d) <= len(d0)
 //@   ensures[C08] removed: nd ==> forallGrid(len(*d), len(s), func(k, j int) bool { return (*d)[k].Topic != s[j] })
 //@   ensures[C08] nodup: nd ==> nodupTopics(*d, len(*d))
+
+// ---- statistics getters (C10: access discipline only) ----
+
+//@ func (*BaseClient).Stats
+//@   mode int
+//@   props C10
+//@   requires c != nil
+//@   assigns nothing
+
+//@ func (*RetryClient).Stats
+//@   mode int
+//@   props C10
+//@   requires c != nil
+//@   assigns nothing
